@@ -116,6 +116,14 @@ func c07Plan(suite uint16, plan string) (writes [][]byte, recs [][]byte) {
 	if plan == "big" {
 		sizes = []int{16384, 17, 1}
 	}
+	if plan == "huge" {
+		// one Write that the record layer has to cut into several records (every record its own explicit IV / nonce)
+		p := c07Payload(7, 40000)
+		if cbc {
+			return [][]byte{p}, [][]byte{p[:1], p[1:16385], p[16385:32769], p[32769:]}
+		}
+		return [][]byte{p}, [][]byte{p[:16384], p[16384:32768], p[32768:]}
+	}
 	if plan == "alertlike" && !cbc {
 		// payloads that would parse as a warning alert / a ChangeCipherSpec if the record type were not authenticated
 		return [][]byte{{1, 91}, {1}, {1, 93}}, [][]byte{{1, 91}, {1}, {1, 93}}
